@@ -50,8 +50,21 @@ pub fn describe(m: &Movie, fl: &FileLayout) -> serde_json::Value {
 }
 
 fn eval(id: &str, m: &Movie, fl: &FileLayout, rep: &mut Report, args: &Args) {
+    eval_x(id, m, fl, rep, args, None)
+}
+
+/// `large`: Some(seed) gives a pseudo-random subset of the boxes below moov (table boxes
+/// included) the 64-bit size header; the tables stay consistent, only positions move.
+fn eval_x(id: &str, m: &Movie, fl: &FileLayout, rep: &mut Report, args: &Args, large: Option<u64>) {
     rep.begin(id);
-    let built = build_plain(m, fl, &|_| {});
+    let built = build_plain(m, fl, &|top| {
+        if let Some(s) = large {
+            crate::layoutx::mark_large(top, s, 5);
+        }
+    });
+    if large.is_some() {
+        rep.add("movies_with_64bit_size_headers_below_moov", 1);
+    }
     let bytes = Rc::new(built.ser.bytes);
     let fails = check_plain(&bytes, m, &built.expect, &Opts { compare_sync: true, bytes_from_file: false });
     let mut fails = fails;
@@ -295,7 +308,7 @@ pub fn run(args: &Args) -> i32 {
     if rep.too_many_fails() {
         return rep.finish();
     }
-    let n = args.scale(4_000, 40_000);
+    let n = args.scale(48_000, 800_000);
     for i in 0..n {
         if !args.mine(i) {
             continue;
@@ -308,7 +321,8 @@ pub fn run(args: &Args) -> i32 {
         let (mt, ms, mz) = if i % 50 == 0 { (3, 5000, 64) } else if i % 4 == 0 { (3, 200, 300) } else { (3, 20, 40) };
         let m = gen_movie(&mut rng, mt, ms, mz);
         let fl = gen_file_layout(&mut rng, &m);
-        eval(&id, &m, &fl, &mut rep, args);
+        let large = if i % 4 == 3 { Some(rng.next_u64()) } else { None };
+        eval_x(&id, &m, &fl, &mut rep, args, large);
         if rep.too_many_fails() {
             break;
         }
